@@ -688,7 +688,7 @@ def check_request(stack, query, kb, csv, rep, part, full_getters_for=None, occ='
 # --------------------------------------------------------------------------
 def roundtrip_dicts(seed):
     z = syms_for(seed)
-    sy = ['a', z['u2'], '&', '=', '%', '+', ' ', ',']
+    sy = ['a', z['u2'], '&', '=', '%', '+', ' ', ',', '\t']   # TAB: a byte below 0x10 (two-digit escapes!)
     keys2 = [''.join(t) for n in range(0, 3) for t in itertools.product(sy, repeat=n)]
     strs2 = keys2
     strs1 = [''.join(t) for n in range(0, 2) for t in itertools.product(sy, repeat=n)]
